@@ -188,7 +188,7 @@ func checkC18(c *Ctx) {
 			if jsonUnmarshal([]byte(ln), &f) != nil {
 				continue
 			}
-			if c.Quick() && (int64(i)+c.Seed)%3 != 0 && f.Ctx != "thenswitch" {
+			if c.Quick() && !sampled(i, c.Seed, 3) && f.Ctx != "thenswitch" {
 				continue
 			}
 			p := swProgram(fmt.Sprintf("W%d", i), &f)
